@@ -539,6 +539,174 @@ let run_codec (file : string) =
     done with End_of_file -> ());
   close_in ic
 
+(* ---------- K6/K7: concurrent cases ---------- *)
+let point_name (ts : tstate) : string =
+  let wn w a = (match w with WPut _ -> "put." | WRm _ -> "rm.") ^ a in
+  match ts.t_pc with
+  | Idle -> (match ts.t_calls with [] -> "end" | _ -> "start")
+  | PReg _ -> "commit.register" | PILock _ -> "intent.lock_I" | PRen _ -> "commit.rename"
+  | WLockI w -> wn w "lock_I" | WLockS w -> wn w "lock_S" | WLockW w -> wn w "lock_W"
+  | WApplied (w, _, _) -> wn w "applied" | WUnlink _ -> "cas.unlink" | WReleased (w, _) -> wn w "released_I"
+  | WCkS (_, who) -> (match int_of_n who with 0 -> "ckpt.lock_S" | 1 -> "put.ckpt.lock_S" | _ -> "rm.ckpt.lock_S")
+  | WCkW (_, who) -> (match int_of_n who with 0 -> "ckpt.lock_W" | 1 -> "put.ckpt.lock_W" | _ -> "rm.ckpt.lock_W")
+  | RRead _ | RRRead _ | GRead _ | GReread _ | ORead _ -> "read.lock_S"
+  | RScanned _ -> "remove.scanned" | RRScanned _ -> "remove_range.scanned"
+  | GLooked _ -> "read.looked_up" | GOpen _ -> "cas.open_blob"
+  | OLockI _ -> "orphan.lock_I" | OUnlink _ -> "orphan.unlink"
+let cres_str = function
+  | CUnit -> "ok" | CBool b -> if b then "ok:true" else "ok:false" | CNum x -> "ok:" ^ decimal_of_n x
+  | CBytes None -> "none" | CBytes (Some b) -> "bytes:" ^ show_content (string_of_bytes b)
+  | CSize None -> "none" | CSize (Some x) -> "size:" ^ decimal_of_n x
+  | CMissing -> "err:BlobDataMissing"
+  | COrphans (d, sk) -> Printf.sprintf "orphans:del=%s,skip=%s" (decimal_of_n d) (decimal_of_n sk)
+let parse_ccall (toks : string list) (orphans : bytes list) : ccall =
+  match toks with
+  | ["put"; k; cs] -> KPut (key_of k, concat (parse_chunks cs))
+  | ["put"; k] -> KPut (key_of k, [])
+  | ["abort"; k; cs] -> KAbort (key_of k, concat (parse_chunks cs))
+  | ["abort"; k] -> KAbort (key_of k, [])
+  | ["remove"; k] -> KRemove (key_of k)
+  | ["remove_range"; a; b] -> KRemoveRange (parse_bound a, parse_bound b)
+  | ["get"; k] -> KGet (key_of k)
+  | ["size"; k] -> KGetSize (key_of k)
+  | ["checkpoint"] -> KCheckpoint
+  | ["delorphans"] -> KDelOrphans orphans
+  | _ -> failwith ("bad conc call " ^ String.concat " " toks)
+let state_line (g : cstate) : string =
+  let holder = function None -> "-" | Some t -> string_of_int (int_of_nat t) in
+  let cas = String.concat "," (List.map (fun (h, _) -> hex_of_bytes h) g.g_cas) in
+  let idx = if g.g_S = None then entries_str g.g_idx.km else "-" in
+  let intents = if g.g_I = None then
+      "[" ^ String.concat ";" (List.map (fun (k, h) -> hex_of_bytes k ^ "=" ^ hex_of_bytes h) g.g_bykey) ^ "]" else "-" in
+  Printf.sprintf "I=%s S=%s cas=[%s] idx=%s intents=%s" (holder g.g_I) (holder g.g_S) cas idx intents
+let run_conc (name : string) (lines : string list) =
+  let cfg = ref default_cfg in
+  let cas0 = ref [] and orphans = ref [] in
+  let setup = ref [] and threads : (int * string list list) list ref = ref [] in
+  let seed = ref 1 and fixed : int list option ref = ref None in
+  List.iter (fun l ->
+    match List.filter (fun s -> s <> "") (String.split_on_char ' ' l) with
+    | "cfg" :: kvs -> cfg := List.fold_left apply_kv !cfg kvs
+    | ["orphan"; c] ->
+      let data = bytes_of_string (parse_chunk c) in
+      let h = hash_fn data in
+      cas0 := sm_ins lex_cmp !cas0 h data; orphans := !orphans @ [h]
+    | "setup" :: rest -> setup := !setup @ [rest]
+    | "thread" :: t :: rest ->
+      let t = int_of_string t in
+      threads := (if List.mem_assoc t !threads then List.map (fun (u, c) -> if u = t then (u, c @ [rest]) else (u, c)) !threads else !threads @ [(t, [rest])])
+    | ["seed"; x] -> seed := int_of_string x
+    | "sched" :: ts -> fixed := Some (List.map int_of_string ts)
+    | [] -> ()
+    | _ -> failwith ("bad conc line " ^ l)) lines;
+  let cmp = key_cmp !cfg.c_kt in
+  (* orphans are listed by the start-up scan in directory order: the harness sorts them by hash *)
+  let orph = List.sort (fun a b -> compare (hex_of_bytes a) (hex_of_bytes b)) !orphans in
+  let thr = (0, List.map (fun c -> parse_ccall c orph) !setup) ::
+            List.map (fun (t, cs) -> (t, List.map (fun c -> parse_ccall c orph) cs)) !threads in
+  let g = ref (init_c (List.map (fun (t, cs) -> (nat_of_int t, cs)) thr) !cas0) in
+  let step t = cstep hash_fn cmp !cfg.c_n !g (nat_of_int t) in
+  (* setup: thread 0 runs to completion first *)
+  let continue = ref true in
+  while !continue do (match step 0 with Some g' -> g := g' | None -> continue := false) done;
+  Printf.printf "CASE %s\n" name;
+  Printf.printf "S init %s\n" (state_line !g);
+  let tids = List.map fst !threads in
+  let rng = ref (!seed * 2654435761 land 0x3fffffff + 12345) in
+  let next_rand n = rng := (!rng * 1103515245 + 12345) land 0x3fffffff; (!rng lsr 8) mod n in
+  let i = ref 0 in
+  let pending = ref (match !fixed with Some l -> l | None -> []) in
+  let fin = ref false in
+  while not !fin do
+    let en = List.filter (fun t -> enabled hash_fn cmp !cfg.c_n !g (nat_of_int t)) tids in
+    if en = [] then begin
+      fin := true;
+      if not (List.for_all (fun t -> match tget !g.g_thr (nat_of_int t) with Some ts -> finished_t ts | None -> true) tids)
+      then Printf.printf "S %d DEADLOCK\n" !i
+    end else begin
+      let t = match !fixed with
+        | Some _ -> (match !pending with
+            | x :: r -> pending := r; if List.mem x en then x else List.hd en
+            | [] -> List.hd en)
+        | None -> List.nth en (next_rand (List.length en)) in
+      let before = (match tget !g.g_thr (nat_of_int t) with Some ts -> ts | None -> failwith "tid") in
+      (match step t with
+       | Some g' ->
+         g := g';
+         let after = (match tget !g.g_thr (nat_of_int t) with Some ts -> ts | None -> failwith "tid") in
+         Printf.printf "S %d t%d %s -> %s %s\n" !i t (point_name before) (point_name after) (state_line !g);
+         let nb = List.length before.t_res and na = List.length after.t_res in
+         if na > nb then Printf.printf "F t%d %d -> %s\n" t nb (cres_str (List.nth after.t_res nb))
+       | None -> ());
+      incr i;
+      if !i > 5000 then fin := true
+    end
+  done
+
+(* ---------- K9: handle life cycle against the OpenLock model ---------- *)
+let run_race (file : string) =
+  let ic = open_in file in
+  let evs = ref [] and name = ref "" in
+  let flush_case () =
+    if !name <> "" then begin
+      Printf.printf "CASE %s\n" !name;
+      let evl = List.rev !evs in
+      (* map slots/processes to handle ids and pids while walking the events *)
+      let slots : (string, int) Hashtbl.t = Hashtbl.create 8 in
+      let next_id = ref 0 in
+      let model_evs = ref [] in       (* reversed *)
+      let current () = results (List.rev !model_evs) in
+      let push e = model_evs := e :: !model_evs in
+      let last_res () = (match List.rev (current ()) with r :: _ -> r | [] -> RNone) in
+      List.iteri (fun i e ->
+        let str = String.concat " " e in
+        let out = match e with
+          | ["open"; s] | ["openstats"; s] | ["spawn"; s] | ["openn"; s; _] ->
+            let pid = (match e with "spawn" :: _ -> 1 + Hashtbl.hash s mod 1000 | _ -> 0) in
+            let free_now = (match List.rev (results (List.rev (EOpen (nat_of_int 0) :: !model_evs))) with ROpened _ :: _ -> true | _ -> false) in
+            if free_now && (match e with ["openn"; _; nn] -> nn <> "3" | _ -> false)
+            then "err:settings.ValidationFailed"       (* the settings gate, not the lock: C19 *)
+            else begin
+            push (EOpen (nat_of_int pid));
+            (match last_res () with
+             | ROpened h -> Hashtbl.replace slots s (int_of_nat h); next_id := int_of_nat h + 1;
+               Hashtbl.replace slots ("pid:" ^ s) pid;
+               (match e with "openstats" :: _ -> push (EClone h); Hashtbl.replace slots (s ^ ":stats") (int_of_nat h) | _ -> ());
+               "opened"
+             | RAlreadyOpened -> (match e with "spawn" :: _ -> "already" | _ -> "already same=true calls=[create LOCK]")
+             | RNone -> "none") end
+          | ["clone"; s; s2] ->
+            (match Hashtbl.find_opt slots s with Some h -> push (EClone (nat_of_int h)); Hashtbl.replace slots s2 h | None -> ()); "none"
+          | ["drop"; s] | ["dropcas"; s] ->
+            (match Hashtbl.find_opt slots s with Some h -> push (EDrop (nat_of_int h)); Hashtbl.remove slots s | None -> ()); "none"
+          | ["dropstats"; s] ->
+            (match Hashtbl.find_opt slots (s ^ ":stats") with Some h -> push (EDrop (nat_of_int h)); Hashtbl.remove slots (s ^ ":stats") | None -> ()); "none"
+          | ["kill"; s] ->
+            (match Hashtbl.find_opt slots ("pid:" ^ s) with Some pid -> push (EKill (nat_of_int pid)) | None -> ()); "none"
+          | ["racethreads"; n] | ["raceprocs"; n] ->
+            (* n simultaneous opens whose handles are all dropped afterwards: in the model, any order *)
+            let n = int_of_string n in
+            let before = List.length (current ()) in
+            for j = 1 to n do push (EOpen (nat_of_int (2000 + j))) done;
+            let rs = List.filteri (fun idx _ -> idx >= before) (current ()) in
+            let w = List.length (List.filter (function ROpened _ -> true | _ -> false) rs) in
+            let l = List.length (List.filter (function RAlreadyOpened -> true | _ -> false) rs) in
+            List.iter (function ROpened h -> push (EDrop h) | _ -> ()) rs;
+            Printf.sprintf "winners=%d already=%d other=%d" w l (n - w - l)
+          | _ -> failwith ("bad race event " ^ str) in
+        Printf.printf "E %d %s -> %s\n" i str out) evl
+    end;
+    evs := []; name := "" in
+  (try while true do
+      let l = String.trim (input_line ic) in
+      match List.filter (fun s -> s <> "") (String.split_on_char ' ' l) with
+      | ["race"; n] -> flush_case (); name := n
+      | "ev" :: rest -> evs := rest :: !evs
+      | ["end"] -> flush_case ()
+      | _ -> ()
+    done with End_of_file -> ());
+  flush_case (); close_in ic
+
 let () =
   let mode = ref Plain in
   let files = ref [] in
@@ -547,6 +715,18 @@ let () =
     | "--toy" :: r -> toy_hash := true; go r
     | "--oracle" :: c :: r -> oracle_cmd := c; go r
     | "--codec" :: f :: r -> run_codec f; go r
+    | "--race" :: f :: r -> run_race f; go r
+    | "--conc" :: f :: r ->
+      let ic = open_in f in
+      let cur_name = ref "" and cur = ref [] in
+      let flush_c () = if !cur_name <> "" then run_conc !cur_name (List.rev !cur); cur := [] in
+      (try while true do
+          let l = String.trim (input_line ic) in
+          if String.length l >= 5 && String.sub l 0 5 = "conc " then begin flush_c (); cur_name := String.sub l 5 (String.length l - 5) end
+          else if l = "end" then begin flush_c (); cur_name := "" end
+          else cur := l :: !cur
+        done with End_of_file -> ());
+      flush_c (); close_in ic; go r
     | "--crash-all" :: r -> mode := CrashAll; go r
     | "--fault" :: k :: r -> mode := Fault (int_of_string k); go r
     | "--fault-all" :: r -> mode := FaultAll; go r
